@@ -19,6 +19,12 @@ impl<T> OnceLock<T> {
         requires f.requires(()),
         ensures self.winner() == Some(*r), self.stored(),
     { self.inner.get_or_init(f) }
+    // `set` can lose against another task at any moment, whatever an earlier `get` answered: Err hands the value back and
+    // says nothing about what the cell holds
+    #[verifier::external_body]
+    pub fn set(&self, value: T) -> (r: Result<(), T>)
+        ensures match r { Ok(_) => self.winner() == Some(value) && self.stored(), Err(v) => v == value && self.stored() },
+    { self.inner.set(value) }
 }
 // futures_util::task::AtomicWaker: no observable effect in contracts (this is why wake ordering is not decided)
 #[verifier::external_body] pub struct AtomicWaker { x: u8 }
@@ -26,7 +32,10 @@ impl<T> OnceLock<T> {
 #[verifier::external_type_specification] #[verifier::external_body] pub struct ExContext<'a>(Context<'a>);
 #[verifier::external_type_specification] #[verifier::reject_recursive_types(T)] pub struct ExPoll<T>(Poll<T>);
 impl AtomicWaker {
-    #[verifier::external_body] pub fn wake(&self) { }
+    /// "the driver has been woken through this waker": like `stored()` a fact that, once true, stays true for the
+    /// purposes of the protocol, and that is *provable* only after a call to `wake` on this path
+    pub uninterp spec fn woken(&self) -> bool;
+    #[verifier::external_body] pub fn wake(&self) ensures self.woken() { }
     #[verifier::external_body] pub fn register(&self, waker: &std::task::Waker) { }
 }
 pub assume_specification<'a, 'b> [Context::<'a>::waker] (cx: &'b Context<'a>) -> (r: &'a std::task::Waker);
